@@ -43,6 +43,9 @@ LAYOUTS = [
     ('key-value', 'in=put', 'out:put', 'k=v:scratch', ''),
     ('leading-trailing', '(input', 'output]', '[scratch),', ''),
     ('decorated-files', 'in.put', 'out,put', 'scratch', ',(v1)[a]=b'),
+    # every name short, every absolute path longer than 255 characters (the limit of ONE name, not of a path)
+    ('deep', '/'.join(['input_' + 'i' * 40] * 6), '/'.join(['output_' + 'o' * 40] * 6),
+     '/'.join(['scratch_' + 's' * 40] * 6), ''),
 ]
 
 SCENARIOS = ['success', 'missing statistics file', 'statistics file is not HDF5',
@@ -105,7 +108,7 @@ def build_layout(world, root, layout, scenario):
     base = pathlib.Path(tempfile.mkdtemp(prefix='lay_', dir=root))
     din, dout, dscr = base / d_in, base / d_out, base / d_scr
     for d in (din, dout, dscr):
-        d.mkdir()
+        d.mkdir(parents=True)
     q = din / f'query{deco}.h5ad'
     s = din / f'precomputed_stats{deco}.h5'
     k = din / f'query_markers{deco}.json'
@@ -320,7 +323,7 @@ def sanitize_cases(root):
     for name, d_in, d_out, d_scr, deco in LAYOUTS:
         base = pathlib.Path(tempfile.mkdtemp(prefix='san_', dir=root))
         d = base / d_in
-        d.mkdir()
+        d.mkdir(parents=True)
         f = d / f'data{deco}.h5'
         f.write_text('x')
         out.append((name, 'existing file', str(f), str(base)))
